@@ -67,7 +67,9 @@ class TableReaderBase(list):
     # Weighted mean of the two neighbours. The slope-intercept form (m*x + c) loses the interval's resolution
     # when x is large compared with the spacing and overflows in c for finite data.
     t = (x - lx)/(hx - lx)
-    return ly*(1.0-t) + hy*t
+    v = ly*(1.0-t) + hy*t
+    # rounding must not carry the result outside the two values it lies between (a flat stretch stays flat)
+    return min(max(v, min(ly, hy)), max(ly, hy))
 
   def _findIndex(self, x):
     """Returns the index of the last x value in this object that is less than x.
